@@ -63,13 +63,36 @@ def cents255(txt: str) -> str:
     return str(r) if abs(v - r) < 1e-6 else f"inexact({txt})"
 
 
+def leaf(v) -> str:
+    """a printed scalar as the trace carries it: text.  A printed sub-tree where a scalar belongs becomes a text that
+    equals no stored value, so that TLC compares like with like and the line is rejected (not an evaluation error)."""
+    return v if isinstance(v, str) else "MALFORMED " + json.dumps(v, sort_keys=True)[:120]
+
+
+def leaves(d: Dict[str, Any]) -> Dict[str, Any]:
+    """apply leaf() to every scalar position of a printed record (lists and records keep their shape)"""
+    out = {}
+    for k, v in d.items():
+        if isinstance(v, list):
+            out[k] = [leaves(x) if isinstance(x, dict) else leaf(x) for x in v]
+        elif isinstance(v, dict) and k in ("ints",):
+            out[k] = leaves(v)
+        else:
+            out[k] = leaf(v)
+    return out
+
+
+def rec(x) -> Dict[str, Any]:
+    return x if isinstance(x, dict) else {}
+
+
 def printed_akai_sample(tree) -> Dict[str, Any]:
     p = {k: tree.get(k, "MISSING") for k in ("file_name", "sample_name", "sample_type", "sample_rate", "samples_cnt", "start_sample",
                                              "end_sample", "pitch_semi", "note_pitch", "loop_type")}
     p["pitch_cents_x255"] = cents255(tree["pitch_cents"]) if "pitch_cents" in tree else "MISSING"
-    p["loops"] = [{"loop_end": lp.get("loop_end", "MISSING"), "loop_duration": lp.get("loop_duration", "MISSING")}
+    p["loops"] = [{"loop_end": rec(lp).get("loop_end", "MISSING"), "loop_duration": rec(lp).get("loop_duration", "MISSING")}
                   for lp in as_list(tree.get("loop_entries"))]
-    return p
+    return leaves(p)
 
 
 # ---- AKAI programs --------------------------------------------------------------------------------
@@ -200,15 +223,16 @@ def printed_akai_program(tree) -> Dict[str, Any]:
     p["key_temperaments"] = as_list(tree.get("key_temperaments"))
     kgs = []
     for kg in as_list(tree.get("keygroups")):
+        kg = rec(kg)
         q = lambda k: kg.get(k, "MISSING")
         kgs.append({"low_key": q("low_key"), "high_key": q("high_key"), "tune_cents_x255": cents255(kg["tune_cents"]) if "tune_cents" in kg else "MISSING",
                     "tune_semitones": q("tune_semitones"), "ints": {k: q(k) for k in KG_INT},
                     "velocity_zone_crossfade": q("velocity_zone_crossfade"), "hold_attack_until_loop": q("hold_attack_until_loop"),
-                    "zones": [{k: z.get(k, "MISSING") for k in ("sample_name", "low_velocity", "high_velocity", "tune_semitones", "loudness_offset",
+                    "zones": [{k: rec(z).get(k, "MISSING") for k in ("sample_name", "low_velocity", "high_velocity", "tune_semitones", "loudness_offset",
                                                                "filter_cutoff_offset", "pan_offset", "loop_mode")}
                               for z in as_list(kg.get("velocity_zones"))]})
-    p["keygroups"] = kgs
-    return p
+    p["keygroups"] = [dict(leaves({k: v for k, v in kg.items() if k != "zones"}), zones=[leaves(z) for z in kg["zones"]]) for kg in kgs]
+    return dict(leaves({k: v for k, v in p.items() if k != "keygroups"}), keygroups=p["keygroups"])
 
 
 # ---- Roland samples -----------------------------------------------------------------------------------
@@ -240,7 +264,7 @@ def printed_roland(tree) -> Dict[str, Any]:
         d = tree.get(k) if isinstance(tree.get(k), dict) else {}
         pts.append({"address": d.get("address", "MISSING"), "fine": d.get("fine", "MISSING")})
     p["points"] = pts
-    return p
+    return leaves(p)
 
 
 def run(chk: Check):
